@@ -100,6 +100,25 @@ def run(ctx):
             cmds = [{"k": "add", "regex": ".*", "operation": "*", "cfg": cfg, "alg": "min_max_uniform_quantize"}]
             info["tags"].add("same_scale_ops_with_fused_activations")
             return fp.Case(mb, info, cmds=cmds, data=data, desc=[("same-scale ops", ".*", "*", cfg["act"]["bits"])])
+        if i % 25 == 6:
+            # calibrated ranges on which the zero point formula lands EXACTLY on a half (qmin - min/scale = -127.5, ...): which neighbour is
+            # taken is part of the arithmetic the model is tied to bit for bit
+            import numpy as np
+            from .. import gen_models as gm
+            mb, info = gm.gen_model(rng, n_ops=1, n_subgraphs=1, kinds=["ADD"], p_unsupported=0.0, alias_sig=0.0, const_kinds=gm.BENIGN_KINDS, allow_dead=0.0)
+            data = gm.random_inputs(mb, rng, n=1)
+            k = rng.choice([1.0, 0.5, 4.0])
+            for samples in data.values():
+                for smp in samples:
+                    for j, (name, arr) in enumerate(sorted(smp.items())):
+                        if arr.dtype.kind == "f" and arr.size >= 2:
+                            lo, hi = [(-1.0, 509.0), (-0.25, 127.25), (-3.0, 507.0)][j % 3]
+                            flat = arr.reshape(-1)
+                            flat[:] = np.linspace(lo * k, hi * k, flat.size, dtype=np.float32)
+            cfg = pl.UNIFORM["a8w8"]
+            cmds = [{"k": "add", "regex": ".*", "operation": "*", "cfg": cfg, "alg": "min_max_uniform_quantize"}]
+            info["tags"].add("zero_point_exactly_on_a_half")
+            return fp.Case(mb, info, cmds=cmds, data=data, desc=[("zero point ties", k)])
         if i % 10 == 9:
             # ONE constant tensor read by several operators (tied weights / a shared bias) under per-reader rules: every reader that is
             # quantized must find the parameters ITS config prescribes, or the recipe is refused
